@@ -160,9 +160,9 @@ dumper::dump_charp (std::ostream &os, char const *buf, size_t len, format fmt)
 	  {
 #define ESCAPE(L, E) case L: os << E; break
 
-	    ESCAPE (0, "\\0");
-	    ESCAPE ('"', "\\");
+	    ESCAPE ('"', "\\\"");
 	    ESCAPE ('\\', "\\\\");
+	    ESCAPE ('%', "%%");
 	    ESCAPE ('\a', "\\a");
 	    ESCAPE ('\b', "\\b");
 	    ESCAPE ('\t', "\\t");
@@ -179,7 +179,7 @@ dumper::dump_charp (std::ostream &os, char const *buf, size_t len, format fmt)
 	    else
 	      {
 		ios_flag_saver ifs {os};
-		os << "\\x" << std::hex << std::setw (2)
+		os << "\\x" << std::hex << std::setfill ('0') << std::setw (2)
 		   << (unsigned) (unsigned char) buf[i];
 	      }
 	  }
